@@ -117,13 +117,26 @@ func checkDepthComparatorImpl(c *Ctx, rule string) {
 					}
 					seenBlock[b] = true
 					aT := condAtom(ifi.Cond, true)
+					lf := lc.forms(aT.X, 0)
+					rf := lc.forms(aT.Y, 0)
+					// `need == 0` on a value clamped at zero (max(…, 0)) is `need <= 0`; `!= 0` is `> 0`
+					eqAsLE := false
 					switch aT.Op {
 					case token.GEQ, token.GTR, token.LEQ, token.LSS:
+					case token.EQL, token.NEQ:
+						hasZero := false
+						for _, l := range lf {
+							if len(l.c) == 0 && l.k == 0 {
+								hasZero = true
+							}
+						}
+						if !isIntConst(aT.Y, 0) || !hasZero {
+							continue
+						}
+						eqAsLE = true
 					default:
 						continue
 					}
-					lf := lc.forms(aT.X, 0)
-					rf := lc.forms(aT.Y, 0)
 					involves := false
 					allLinear := true
 					type cmpForm struct {
@@ -133,6 +146,13 @@ func checkDepthComparatorImpl(c *Ctx, rule string) {
 					var fullForms [2][]cmpForm // per polarity
 					for pol, want := range []bool{true, false} {
 						a := condAtom(ifi.Cond, want)
+						if eqAsLE {
+							if a.Op == token.EQL {
+								a.Op = token.LEQ
+							} else {
+								a.Op = token.GTR
+							}
+						}
 						for _, l := range lf {
 							for _, r := range rf {
 								f, k, ok := normGE(l, r, a.Op)
